@@ -96,8 +96,10 @@ Proof.
   exists [35; 94; 32; 105; 110; 116; 32; 120]. eexists. split; [vm_compute; reflexivity|]. split; [reflexivity|].
   simpl. unfold before. simpl. intros [H _]. lia.
 Qed.
-Lemma refuted_fstring_parts : exists s, read_many toyp s =
-  Ok [At 7 0 (FStr false None [At 6 4 (Str [97] None); At 4 2 (FComp false None [120] [At 3 3 (Sym [120])]); At 6 0 (Str [98] None)])].
+(* f DQ a { x } b DQ : since the fix of read_fcomponents_until the second literal part b starts where the field
+   ended (2 remaining); neighbouring parts share the brace between them *)
+Lemma fstring_parts_example : exists s, read_many toyp s =
+  Ok [At 7 0 (FStr false None [At 6 4 (Str [97] None); At 4 2 (FComp false None [120] [At 3 3 (Sym [120])]); At 2 0 (Str [98] None)])].
 Proof. exists [102; 34; 97; 123; 120; 125; 98; 34]. vm_compute. reflexivity. Qed.
 Lemma refuted_synthesized_child : exists s, read_many toyp s = Ok [At 1 0 (Seq KExpr [Sym [113; 117; 111; 116; 101]; At 0 0 (Sym [120])])].
 Proof. exists [39; 120]. vm_compute. reflexivity. Qed.
